@@ -8,7 +8,7 @@ use honeycomb_core::stm::{
     Transaction, TransactionClosureResult, TransactionError, atomically_with_err,
 };
 
-use crate::attrs::{self, ETerm, FTerm, Node, VDef, VTerm};
+use crate::attrs::{self, ETerm, FTerm, Node, OTerm, VDef, VTerm};
 use crate::fmt::{link_err, parse_rat, rat, sew_err};
 
 pub struct S2 {
@@ -87,6 +87,9 @@ impl S2 {
         if mask & 4 != 0 {
             b = b.add_attribute::<FTerm>();
         }
+        if mask & 8 != 0 {
+            b = b.add_attribute::<OTerm>();
+        }
         if mask & 16 != 0 {
             b = b.add_attribute::<VDef>();
         }
@@ -159,7 +162,7 @@ impl S2 {
     }
 
     fn registered(&self, st: usize) -> bool {
-        st >= 1 && st != 4 && st <= 5 && (self.mask >> (st - 1)) & 1 == 1
+        st >= 1 && st <= 5 && (self.mask >> (st - 1)) & 1 == 1
     }
 
     fn read_attr_tx(&self, t: &mut Transaction, st: usize, id: DartIdType) -> honeycomb_core::stm::StmClosureResult<Option<u32>> {
@@ -167,6 +170,7 @@ impl S2 {
             1 => self.map.read_attribute::<VTerm>(t, id)?.map(|v| v.0),
             2 => self.map.read_attribute::<ETerm>(t, id)?.map(|v| v.0),
             3 => self.map.read_attribute::<FTerm>(t, id)?.map(|v| v.0),
+            4 => self.map.read_attribute::<OTerm>(t, id)?.map(|v| v.0),
             5 => self.map.read_attribute::<VDef>(t, id)?.map(|v| v.0),
             _ => None,
         })
@@ -177,10 +181,12 @@ impl S2 {
             (1, Some(v)) => self.map.write_attribute::<VTerm>(t, id, VTerm(v))?.map(|v| v.0),
             (2, Some(v)) => self.map.write_attribute::<ETerm>(t, id, ETerm(v))?.map(|v| v.0),
             (3, Some(v)) => self.map.write_attribute::<FTerm>(t, id, FTerm(v))?.map(|v| v.0),
+            (4, Some(v)) => self.map.write_attribute::<OTerm>(t, id, OTerm(v))?.map(|v| v.0),
             (5, Some(v)) => self.map.write_attribute::<VDef>(t, id, VDef(v))?.map(|v| v.0),
             (1, None) => self.map.remove_attribute::<VTerm>(t, id)?.map(|v| v.0),
             (2, None) => self.map.remove_attribute::<ETerm>(t, id)?.map(|v| v.0),
             (3, None) => self.map.remove_attribute::<FTerm>(t, id)?.map(|v| v.0),
+            (4, None) => self.map.remove_attribute::<OTerm>(t, id)?.map(|v| v.0),
             (5, None) => self.map.remove_attribute::<VDef>(t, id)?.map(|v| v.0),
             _ => None,
         })
@@ -381,6 +387,7 @@ impl S2 {
                             1 => m.force_read_attribute::<VTerm>(x).map(|v| v.0),
                             2 => m.force_read_attribute::<ETerm>(x).map(|v| v.0),
                             3 => m.force_read_attribute::<FTerm>(x).map(|v| v.0),
+                            4 => m.force_read_attribute::<OTerm>(x).map(|v| v.0),
                             5 => m.force_read_attribute::<VDef>(x).map(|v| v.0),
                             _ => None,
                         })
